@@ -3,18 +3,23 @@
 import json, os, glob
 V = os.path.dirname(os.path.dirname(os.path.abspath(__file__)))
 rows = []
+notes = json.load(open(os.path.join(V, "seeded", "notes.json")))
 for d in sorted(glob.glob(os.path.join(V, "seeded", "*", "meta.json"))):
     m = json.load(open(d))
     name = os.path.basename(os.path.dirname(d))
     det = [c for c, r in m.get("checks", {}).items() if r.get("violations")]
     miss = [c for c, r in m.get("checks", {}).items() if not r.get("violations")]
+    nt = notes.get(name, ["", ""])
+    if not m.get("needs") or m.get("summary") != nt[0]:
+        m["summary"], m["needs"] = nt[0], nt[1]
+        json.dump(m, open(d, "w"), indent=1)
     rows.append((name, m.get("property"), m.get("confirmed"), det, miss, m.get("needs", ""), m.get("summary", "")))
 with open(os.path.join(V, "seeded", "SUMMARY.md"), "w") as f:
     f.write("# Seeded changes and which checks catch them\n\n")
     f.write("Each change compiles, passes the 28 existing tests, and fails its demonstration (confirmed in a scratch worktree).\n\n")
     f.write("| seed | breaks | confirmed | flagged by | run but silent | what it needs / summary |\n|---|---|---|---|---|---|\n")
     for name, prop, conf, det, miss, needs, summ in rows:
-        f.write("| %s | %s | %s | %s | %s | %s |\n" % (name, prop, "yes" if conf else "NO", ", ".join(det) or "-", ", ".join(miss) or "-", (summ or needs).replace("|", "/")))
+        f.write("| %s | %s | %s | %s | %s | %s |\n" % (name, prop, "yes" if conf else "NO", ", ".join(det) or "-", ", ".join(miss) or "-", (summ + " — needs: " + needs).replace("|", "/")))
     n = len(rows)
     d = sum(1 for r in rows if r[3])
     f.write("\n%d seeds, %d flagged by at least one check (own property's check listed first).\n" % (n, d))
